@@ -75,6 +75,7 @@ type hRunner struct {
 	trace []string
 	rejected int // requests inside the envelope that the agent rejected
 	ghosts   []mGhost
+	ghostPeers map[uint32]bool // GTP peers a FAR was moved away from by an Update FAR
 
 	// callbacks
 	onBefore func(h *hRunner, op *hOp)
@@ -158,15 +159,20 @@ func (h *hRunner) genSession(assoc int) (*vEstSpec, *mSession, map[uint16]*mFlow
 	if len(c.GNBs) > 0 {
 		gnb = c.GNBs[rng.Intn(len(c.GNBs))]
 	}
+	var appPrec uint32
+	dlKind := rng.Intn(6) // UP4: one UE has one tunnel state: all downlink FARs of a session agree
 	for k := 0; k < npairs; k++ {
 		var fl *mFlow
+		appPrec = 0
 		if rng.Intn(100) < c.PSDF || k > 0 {
 			// further pairs of one session need distinct filters: two PDRs of one direction that denote
 			// the same packet set cannot both be represented (and one of them is pointless)
 			for try := 0; try < 50; try++ {
 				fl = mGenFlow(rng, c.Canonical, c.MaxPortWidth)
 				if c.AppFilters > 0 {
-					fl = h.appFilter(rng.Intn(c.AppFilters))
+					fi := rng.Intn(c.AppFilters)
+					fl = h.appFilter(fi)
+					appPrec = uint32(100 + 7*fi) // PDRs sharing an application filter carry the same precedence
 				}
 				if !hSameMatch(ms, fl) {
 					break
@@ -177,12 +183,16 @@ func (h *hRunner) genSession(assoc int) (*vEstSpec, *mSession, map[uint16]*mFlow
 		}
 		upID, dnID := uint16(2*k+1), uint16(2*k+2)
 		upFAR, dnFAR := uint32(2*k+1), uint32(2*k+2)
+		_ = appPrec
 		up := vPDRSpec{ID: upID, Prec: precs[pi%len(precs)], Src: ie.SrcInterfaceAccess, FTEID: true, TEID: teid + uint32(k), TunIP: vIPStr(h.n3), UE: true, UEIP: ue, UEFlag: 0x02, OHR: true, FAR: upFAR}
 		pi++
 		dn := vPDRSpec{ID: dnID, Prec: precs[pi%len(precs)], Src: ie.SrcInterfaceCore, UE: true, UEIP: ue, UEFlag: 0x02, FAR: dnFAR}
 		pi++
 		if c.SamePrecPair {
 			dn.Prec = up.Prec
+		}
+		if appPrec != 0 && fl != nil {
+			up.Prec, dn.Prec = appPrec, appPrec
 		}
 		if rng.Intn(100) < c.PChoose {
 			up.Choose = true
@@ -212,7 +222,11 @@ func (h *hRunner) genSession(assoc int) (*vEstSpec, *mSession, map[uint16]*mFlow
 		ms.PDRs = append(ms.PDRs, mNewPDR(up, fl, h.n3), mNewPDR(dn, fl, h.n3))
 		fu := vFARSpec{ID: upFAR, Action: ActionForward, Fwd: true, HasDst: true, DstIf: ie.DstInterfaceCore}
 		fd := vFARSpec{ID: dnFAR, Action: ActionForward, Fwd: true, HasDst: true, DstIf: ie.DstInterfaceAccess, OHC: true, OHCTeid: 0x20000 + uint32(n*4+k), OHCIP: gnb}
-		switch rng.Intn(6) {
+		kind := rng.Intn(6)
+		if c.UP4 {
+			kind = dlKind
+		}
+		switch kind {
 		case 0:
 			fd = vFARSpec{ID: dnFAR, Action: ActionBuffer | ActionNotify}
 		case 1:
@@ -339,9 +353,21 @@ func (h *hRunner) genMod(a int, s *mSession) *hOp {
 			return h.genModFallback(a, s)
 		}
 		n := 1 + rng.Intn(len(dl))
+		if c.UP4 {
+			n = len(dl)
+		}
+		upKind := rng.Intn(5)
+		upGNB := "198.18.0.10"
+		if len(c.GNBs) > 0 {
+			upGNB = c.GNBs[rng.Intn(len(c.GNBs))]
+		}
 		for _, f := range dl[:n] {
 			nf := vFARSpec{ID: f.Spec.ID}
-			switch rng.Intn(5) {
+			kind := rng.Intn(5)
+			if c.UP4 {
+				kind = upKind
+			}
+			switch kind {
 			case 0:
 				// this agent requires Update Forwarding Parameters in every Update FAR
 				nf = vFARSpec{ID: f.Spec.ID, Action: ActionBuffer | ActionNotify, Fwd: true, HasDst: true, DstIf: ie.DstInterfaceAccess}
@@ -351,6 +377,9 @@ func (h *hRunner) genMod(a int, s *mSession) *hOp {
 				gnb := "198.18.0.10"
 				if len(c.GNBs) > 0 {
 					gnb = c.GNBs[rng.Intn(len(c.GNBs))]
+				}
+				if c.UP4 {
+					gnb = upGNB
 				}
 				nf = vFARSpec{ID: f.Spec.ID, Action: ActionForward, Fwd: true, HasDst: true, DstIf: ie.DstInterfaceAccess, OHC: true, OHCTeid: uint32(0x30000 + rng.Intn(0xFFFF)), OHCIP: gnb}
 				if rng.Intn(2) == 0 {
@@ -655,6 +684,14 @@ func (h *hRunner) apply(op *hOp, rep *vReply) {
 		}
 		for _, x := range m.UpFAR {
 			if f := s.far(x.ID); f != nil {
+				if o := f.Spec; o.Action&ActionForward != 0 && o.OHC && o.OHCTeid != 0 &&
+					(x.Action&ActionForward == 0 || !x.OHC || x.OHCIP != o.OHCIP) {
+					// the FAR leaves its GTP peer
+					if h.ghostPeers == nil {
+						h.ghostPeers = map[uint32]bool{}
+					}
+					h.ghostPeers[vIP4(o.OHCIP)] = true
+				}
 				f.Spec = x
 			}
 		}
